@@ -83,6 +83,21 @@ def systematic():
              '(!("ab" | "b" | "") ~ ANY)*', '"a" ~ "b" | "a" ~ "c"', '"a" ~ "b" ~ "c" | "a" ~ "b" ~ "d" | "a"', '"a" ~ ("b" | "c" ~ "d")', '^"a" ~ ^"b"', '"a" ~ "" ~ "b"']
     for s in lists:
         out.append(grammar_text(s)); out.append(grammar_text(s, "", '"b"', "", '_{ " " }'))
+    # every rewrite shape under each configuration of implicit rules (none / WHITESPACE only / COMMENT only / both)
+    for s in ['"a" ~ "b" | "a"', 'b ~ "a" | b', '"a" | "a" ~ "b"', '("a" ~ "b")* ~ "a"', '"a" ~ "b" | "a" ~ "c"', '(!"b" ~ ANY)* ~ "b"', '"a"{2} ~ "b"?', '("a" ~ "b") ~ "c"? ~ "a"']:
+        for ws, cm in [(None, '_{ "#" }'), ('_{ " " }', '_{ "#" }'), (None, '{ "#" ~ "#"? }')]:
+            for m in ["", "!", "@"]:
+                out.append(grammar_text(s, m, '"b"', "", ws, cm))
+    nested = ['PUSH("a") ~ ("x" | POP | "b") ~ PEEK_ALL', 'PUSH("a") ~ ("-" ~ POP?)? ~ PEEK_ALL', 'PUSH("a") ~ (POP | "b")* ~ PEEK_ALL?', 'PUSH("a") ~ ("x" | (POP_ALL | "b")) ~ PEEK_ALL',
+              'PUSH(ANY) ~ (("x" ~ "y" | POP)? ~ ANY)? ~ PEEK', 'PUSH("a") ~ (!("x" | POP) ~ ANY)* ~ PEEK_ALL',
+              # a repetition whose body matches without consuming input but changes the stack
+              'PUSH(ANY) ~ PUSH(ANY) ~ DROP*', 'PUSH(ANY) ~ PUSH(ANY) ~ DROP* ~ PEEK_ALL ~ ANY', 'PUSH("") ~ PUSH("") ~ PUSH("a") ~ POP* ~ ANY',
+              # slices over two entries that read differently in the two directions
+              'PUSH("a") ~ PUSH("b") ~ PEEK[..]', 'PUSH(ANY) ~ PUSH(ANY) ~ PEEK[0..] ~ EOI', 'PUSH("a") ~ PUSH("b") ~ (PEEK[..] | PEEK_ALL)', 'PUSH(ANY) ~ PUSH(ANY) ~ PEEK[-2..] ~ PEEK[..2]']
+    for s in nested:
+        out.append(grammar_text(s)); out.append(grammar_text(s, "", '"b"', "", '_{ " " }'))
+    out.append(grammar_text('PUSH("a") ~ ("x" | b | "c") ~ PEEK_ALL', "", 'POP', "_"))
+    out.append(grammar_text('PUSH(ANY) ~ PUSH(ANY) ~ b*', "", 'DROP', ""))
     return out
 
 
